@@ -19,6 +19,19 @@ URI_POOL_ADVERSARIAL = [
     "http://zv.test/w3/xs", "http://zv.test/a", "http://zv.test/b/a", "http://zv.test/c-a", "http://zv.test/1/2/3",
     "http://zv.test/123", "http://zv.test/_", "http://zv.test/é/漢字", "http://zv.test/mod", "http://zv.test/r/self",
 ]
+# URIs that zeep's three-letter abbreviation scheme maps to the same (or a confusable) abbreviation
+COLLISION_GROUPS = [
+    ["http://zv.test/v1/types", "http://zv.test/v2/types", "http://zv.test/v3/types", "http://other.test/types", "urn:zv:types",
+     "http://zv.test/my-types", "http://zv.test/types/", "http://zv.test/types.v1", "http://zv.test/TYPES", "http://zv.test/a/typ",
+     "http://zv.test/b/typography", "http://zv.test/t.y.pes", "urn:zv:x-types"],
+    ["http://zv.test/orders/v1", "http://zv.test/customers/v1", "urn:zv:a:v1"],
+    ["http://zv.test/x/v2", "http://zv.test/y/v2"],
+    ["http://zv.test/2006", "http://zv.test/q/2006"],
+    ["http://zv.test/ty1", "http://zv.test/ty", "http://zv.test/ty2"],
+    ["http://zv.test/messages", "http://zv.test/mes", "http://zv.test/x/messages", "urn:mes"],
+    ["http://zv.test/a", "http://zv.test/b/a", "http://zv.test/c-a"],
+    ["http://zv.test/123", "http://zv.test/1/2/3"],
+]
 PREFIX_POOL = ["tns", "t", "ns1", "ns2", "a", "b", "m", "typ", "msg", "q", "p", "x", "s1", "core", "base"]
 
 DEFAULT_CFG = dict(
@@ -54,7 +67,16 @@ class Gen:
     def make_files(self, n):
         r = self.r
         pool = URI_POOL_ADVERSARIAL if self.cfg["adversarial_uris"] else URI_POOL
-        uris = r.sample(pool, n)
+        if self.cfg["adversarial_uris"] and n >= 2 and r.random() < 0.8:
+            # at least two namespaces of one collision group, the rest from the whole pool
+            grp = r.choice(COLLISION_GROUPS)
+            k = min(len(grp), r.randrange(2, n + 1))
+            uris = r.sample(grp, k)
+            rest = [u for u in pool if u not in uris]
+            uris += r.sample(rest, n - k)
+            r.shuffle(uris)
+        else:
+            uris = r.sample(pool, n)
         for i in range(n):
             self.files.append(SchemaFile(i, uris[i], f"f{i}.xsd"))
         if self.cfg["no_tns"] and n == 1 and r.random() < self.cfg["no_tns"]:
@@ -373,10 +395,40 @@ class Gen:
             self.files[fidx].components.append(c)
         for f in self.files:
             r.shuffle(f.components)                 # declaration order ≠ creation order → forward references
+        if cfg["reuse_names"]:
+            self.add_decoys()
         ss = SchemaSet(self.files, self.files[0].filename, None, self.features)
         if cfg["wsdl"]:
             self.make_wsdl(ss)
         return ss
+
+    def add_decoys(self):
+        """Name-collision decoys (C09): for a global element that is referred to by ref= from its own file, another type of that
+        file gets a *local* element of the same name and a different type, declared before the referrer, while the global
+        element itself is declared last — a by-name lookup that forgets "global" or "kind" binds the reference to the decoy."""
+        r = self.r
+        for f in self.files:
+            holders = [c for c in f.components if c.kind in ("complex", "gelement") and getattr(c, "content", None) is not None
+                       and c.content.group is not None]
+            for g in [c for c in f.components if c.kind == "gelement"]:
+                referrers = [c for c in holders if any(m["kind"] == "ref" and m["target"] is g and not m.get("inherited")
+                                                       for m in flat_members(c))]
+                if not referrers or r.random() < 0.3:
+                    continue
+                free = [c for c in holders if c not in referrers and c is not g and g.name.snake not in flat_member_snakes(c)
+                        and not any(g.name.snake in flat_member_snakes(d) for d in self.created
+                                    if d.kind == "complex" and derives_from(d, c))]
+                if not free:
+                    continue
+                h = r.choice(free)
+                decoy_type = "unsignedShort" if not (not g.anonymous and g.type.builtin and g.type.name == "unsignedShort") else "boolean"
+                h.content.group.items.append(LocalElement(Name(g.name.words, g.name.style, g.name.literal), TypeRef(decoy_type), 0, 1))
+                self.features.add("decoy-local-element")
+                # order: the decoy holder first, the global element last (forward reference)
+                f.components.remove(h)
+                f.components.insert(0, h)
+                f.components.remove(g)
+                f.components.append(g)
 
     # ------------------------------------------------------------------ WSDL
     def make_wsdl(self, ss):
@@ -461,6 +513,14 @@ def ext_depth(c):
         c = c.base.comp
         d += 1
     return d
+
+
+def derives_from(d, c):
+    while getattr(d, "base", None) is not None:
+        d = d.base.comp
+        if d is c:
+            return True
+    return False
 
 
 def builtin_window(b):
